@@ -16,8 +16,9 @@ for x in d["failed"][:3]:
     print("     e.g. %s %s: %s" % (x.get("file"), x.get("theorem","-"), x["error"][:200]))
 '; }
 
-mutate() {  # name file python-expression-on-s
+mutate() {  # name file old new        (VALIDATE_ONLY=<regex on the name> runs a subset)
   local name=$1 file=$2 ; shift 2
+  if [ -n "$VALIDATE_ONLY" ] && ! [[ $name =~ $VALIDATE_ONLY ]]; then return; fi
   rm -rf "$scratch/r"; mkdir -p "$scratch/r"
   (cd "$repo" && tar cf - --exclude=.git .) | (cd "$scratch/r" && tar xf -)
   python3 - "$scratch/r/$file" "$@" <<'PY'
@@ -602,6 +603,135 @@ mutate "(s3) HashSet.Difference shares the map when the other set is empty" sets
 	}
 	result := New[T]()
 '
+
+DL=lists/doublylinkedlist/doublylinkedlist.go
+SL=lists/singlylinkedlist/singlylinkedlist.go
+mutate "(p1) DoublyLinkedList.Insert sets oldNextElement.prev before the splice loop" $DL \
+'		oldNextElement := beforeElement.next
+		for _, value := range values {
+			newElement := &element[T]{value: value}
+			newElement.prev = beforeElement
+			beforeElement.next = newElement
+			beforeElement = newElement
+		}
+		oldNextElement.prev = beforeElement
+		beforeElement.next = oldNextElement' \
+'		oldNextElement := beforeElement.next
+		oldNextElement.prev = beforeElement
+		for _, value := range values {
+			newElement := &element[T]{value: value}
+			newElement.prev = beforeElement
+			beforeElement.next = newElement
+			beforeElement = newElement
+		}
+		beforeElement.next = oldNextElement'
+
+mutate "(p2) DoublyLinkedList.Insert: newElement.prev = list.first in the front-insert branch" $DL \
+'			} else {
+				newElement.prev = beforeElement
+				beforeElement.next = newElement' \
+'			} else {
+				newElement.prev = list.first
+				beforeElement.next = newElement'
+
+mutate "(p3) DoublyLinkedList.Remove walks backwards with list.last.prev" $DL \
+'		element = list.last
+		for e := list.size - 1; e != index; e, element = e-1, element.prev {
+		}
+	} else {
+		element = list.first' \
+'		element = list.last
+		for e := list.size - 1; e != index; e, element = e-1, list.last.prev {
+		}
+	} else {
+		element = list.first'
+
+mutate "(p4) SinglyLinkedList.Add re-points first at the new cell" $SL \
+'			list.last.next = newElement
+			list.last = newElement
+		}
+		list.size++' \
+'			list.last.next = newElement
+			list.first = newElement
+			list.last = newElement
+		}
+		list.size++'
+
+mutate "(p5) DoublyLinkedList.Swap swaps the value with itself (element2.value, element2.value)" $DL \
+'		element1.value, element2.value = element2.value, element1.value' \
+'		element1.value, element2.value = element2.value, element2.value'
+
+mutate "(p6) SinglyLinkedList.Values stops one cell early (element.next != nil)" $SL \
+'	for e, element := 0, list.first; element != nil; e, element = e+1, element.next {
+		values[e] = element.value' \
+'	for e, element := 0, list.first; element.next != nil; e, element = e+1, element.next {
+		values[e] = element.value'
+
+mutate "(p7) DoublyLinkedList.Prepend forgets the prev link of the old first cell" $DL \
+'			list.first.prev = newElement' ''
+
+mutate "(p8) harmless: SinglyLinkedList.Add with renamed locals and list.size += 1" $SL \
+'		newElement := &element[T]{value: value}
+		if list.size == 0 {
+			list.first = newElement
+			list.last = newElement
+		} else {
+			list.last.next = newElement
+			list.last = newElement
+		}
+		list.size++' \
+'		cell := &element[T]{value: value}
+		if list.size == 0 {
+			list.first = cell
+			list.last = cell
+		} else {
+			list.last.next = cell
+			list.last = cell
+		}
+		list.size += 1'
+
+mutate "(p9) harmless: SinglyLinkedList.Get steps in the loop body, counter e++ in the post statement" $SL \
+'	element := list.first
+	for e := 0; e != index; e, element = e+1, element.next {
+	}
+
+	return element.value, true' \
+'	element := list.first
+	for e := 0; e != index; e++ {
+		element = element.next
+	}
+
+	return element.value, true'
+
+mutate "(p10) harmless in Go, ANOTHER LOOP SHAPE for the translator: SinglyLinkedList.Get with for e := 0; e < index; e++" $SL \
+'	element := list.first
+	for e := 0; e != index; e, element = e+1, element.next {
+	}
+
+	return element.value, true' \
+'	element := list.first
+	for e := 0; e < index; e++ {
+		element = element.next
+	}
+
+	return element.value, true'
+
+mutate "(p11) untranslatable pointer construct (a continue in the inner loop of Contains) is refused" $SL \
+'			if element.value == value {
+				found = true
+				break
+			}' \
+'			if element.value == value {
+				found = true
+				break
+			}
+			continue'
+
+mutate "(p12) SinglyLinkedList.List gets a field the cell model does not have" $SL \
+'	size  int
+}' '	size  int
+	cache []T
+}'
 
 mutate "(h) Dequeue forgets to wrap start" $CB \
 '	if queue.start >= queue.maxSize {
